@@ -291,7 +291,7 @@ class C01(core.Check):
             vs.append(core.violated('reserved!=emitted', {'mismatch': probe['mismatch'][:3]}))
         # supporting monitor: the append_bits trace of every instruction must be the model's field list
         tr = ((o.get('probes') or {}).get('fields') or {}).get('instructions')
-        if tr is not None and not o.get('from_cli'):
+        if tr is not None:
             if (o['probes']['fields'].get('post_violations')):
                 vs.append(core.violated('append_bits-cursor-postcondition', {'v': o['probes']['fields']['post_violations'][:3]}))
             by_addr = sorted(stmts, key=lambda l: l['addr'])
